@@ -46,6 +46,8 @@ def build(state, user):
     sync = ('USER',) if user else (('STRICT',) if state not in ('ELECTION',) else ('TIMEOUT',))
     if user and state != 'SYNCHRONIZATION':
         sync = ('USER', 'TIMEOUT')
+    if user == 'joiner':
+        sync = ('TIMEOUT',)
     cfg = cl.Config(n=2, sync=sync)
     c = cl.make_cluster(cfg, programs=PROGS, rules_xml=rules(state == 'DISTRIBUTION'))
     c.auto_orders = False
@@ -55,6 +57,43 @@ def build(state, user):
         d.boot('n1')
         d.boot('n2')
         roles = {'none': 'n1'}
+    elif state == 'ELECTION' and user == 'joiner':
+        # a late joiner that has adopted the running Master and sits in ELECTION while it knows that Master to be in
+        # OPERATION (the situation of known finding F2): found by a seeded walk over the scheduler choices
+        import random
+        c.close()
+        for seed in range(80):
+            rnd = random.Random(seed)
+            c = cl.make_cluster(cfg, programs=PROGS, rules_xml=rules(False))
+            c.auto_orders = False
+            d = Driver(c)
+            d.boot('n1')
+            for _ in range(8):
+                d.fair_round()
+            d.boot('n2')
+            id1 = c.nodes['n1'].identifier
+            ok = False
+            for _ in range(150):
+                ms = c.nodes['n2'].supvisors.state_modes.master_state      # (harness: state building only)
+                if c.fsm_state('n2') == 'ELECTION' and c.master('n2') == id1 and ms is not None \
+                        and ms.name == 'OPERATION' and c.fsm_state('n1') == 'OPERATION':
+                    ok = True
+                    break
+                acts = [('p',) + pr for pr in sorted(c.pending())] + [('t', 'n2')]
+                if rnd.random() < 0.3:
+                    acts.append(('t', 'n1'))
+                act = rnd.choice(acts)
+                if act[0] == 'p':
+                    d.proxy(act[1], act[2])
+                else:
+                    d.tick(act[1])
+            if ok:
+                break
+            c.close()
+            c = None
+        if c is None:
+            return None, None, {}
+        roles = {'slave': 'n2'}
     elif state == 'SYNCHRONIZATION':
         d.boot('n1')
         if user:
@@ -109,13 +148,13 @@ def args_for(case, c):
     for i, kind in enumerate(case['kinds'], 1):
         bad = case['defect'] if case['pos'] == i else None
         if kind == 'strategy':
-            v = {'badstr': 'SPEEDY', 'badint': 17, 'badtype': 2.5, None: 'CONFIG'}[bad]
+            v = {'badstr': 'SPEEDY', 'badint': 17, 'badtype': 2.5, 'badbool': True, None: 'CONFIG'}[bad]
         elif kind == 'cstrategy':
-            v = {'badstr': 'KILL_THEM', 'badint': 17, 'badtype': 2.5, None: 'STOP'}[bad]
+            v = {'badstr': 'KILL_THEM', 'badint': 17, 'badtype': 2.5, 'badbool': False, None: 'STOP'}[bad]
         elif kind in ('app', 'mapp'):
             v = {'unknown': 'ghost', 'unmanaged': 'unm', None: 'app'}[bad]
         elif kind == 'proc':
-            v = 'app:ghost' if bad else 'app:p1'
+            v = {'unknown': 'app:ghost', 'barename': 'app', None: 'app:p1'}[bad]
         elif kind == 'lproc':
             v = 'app:ghost' if bad else 'app:p1'
         elif kind == 'inst':
@@ -171,9 +210,15 @@ def main(tier, seed, replay=None):
         if cs['user'] and cs['m'] != 'end_sync':
             continue
         groups.setdefault((cs['s'], cs['user']), []).append(cs)
+    # ELECTION is also visited on a non-Master that knows its Master while that Master is in OPERATION
+    if ('ELECTION', False) in groups:
+        groups[('ELECTION', 'joiner')] = [dict(x) for x in groups[('ELECTION', False)]]
     n_calls = 0
-    for (state, user), cs in sorted(groups.items()):
+    for (state, user), cs in sorted(groups.items(), key=lambda kv: (kv[0][0], str(kv[0][1]))):
         c, d, roles = build(state, user)
+        if not roles:
+            v.notes.append(f'state {state} ({user}) could not be built: role skipped')
+            continue
         try:
             for role, node in sorted(roles.items()):
                 for case in cs:
